@@ -1228,6 +1228,15 @@ def raiseOK (K : Core → Bool) : Option Core → Bool
   | none => true
   | some τ => K τ
 
+/-- how a handler that ran to its end is accepted: `raise …` hands the state to the enclosing acceptance predicate;
+    falling off the end (the exception is swallowed, e.g. "this attempt failed, the next one succeeded") is accepted
+    when the state equals the state in which the `try` body completes normally — so that one state describes the
+    program point after the `try` -/
+def exitOK (K : Core → Bool) (ex : Exit) (σb τ' : Core) : Bool :=
+  match ex with
+  | .swallow => τ' == σb
+  | _ => K τ'
+
 /-- abstract run; `K τ` = "an exception raised in core state τ is acceptable here" -/
 def chk : Nat → (Core → Bool) → Core → Prog → Option Core
   | 0, _, _, _ => none
@@ -1237,13 +1246,16 @@ def chk : Nat → (Core → Bool) → Core → Prog → Option Core
       | none => none
       | some (σ', ρ) => if raiseOK K ρ then chk f K σ' rest else none
   | f + 1, K, σ, .try_ body cs h ex :: rest =>
-      match chk f (fun τ =>
-          (catchesAll cs || K τ) &&
-          (match chk f K τ h with
-           | some τ' => ex != .swallow && K τ'
-           | none => false)) σ body with
+      match chk f (fun _ => true) σ body with          -- the state in which the body completes normally
       | none => none
-      | some σ1 => chk f K σ1 rest
+      | some σb =>
+        match chk f (fun τ =>
+            (catchesAll cs || K τ) &&
+            (match chk f K τ h with
+             | some τ' => exitOK K ex σb τ'
+             | none => false)) σ body with
+        | none => none
+        | some σ1 => chk f K σ1 rest
 
 private theorem absAtom_sound (P : Plan) (id : Nat) (a : Atom) (s : St) (σ' : Core) (ρ : Option Core)
     (h : absAtom a (core s) = some (σ', ρ)) :
@@ -1297,6 +1309,59 @@ private theorem absAtom_sound (P : Plan) (id : Nat) (a : Atom) (s : St) (σ' : C
       · exact Or.inl ⟨rfl, h1⟩
     · simp [absAtom, core, hm] at h
 
+/-- the state in which a program completes normally does not depend on the acceptance predicate -/
+theorem chk_indep : ∀ (f : Nat) (K K' : Core → Bool) (σ : Core) (p : Prog) (a b : Core),
+    chk f K σ p = some a → chk f K' σ p = some b → a = b := by
+  intro f
+  induction f with
+  | zero => intro K K' σ p a b h; simp [chk] at h
+  | succ f ih =>
+    intro K K' σ p a b h h'
+    cases p with
+    | nil =>
+      simp only [chk, Option.some.injEq] at h h'
+      exact h.symm.trans h'
+    | cons st rest =>
+      cases st with
+      | atom id x =>
+        simp only [chk] at h h'
+        cases ha : absAtom x σ with
+        | none => simp [ha] at h
+        | some pr =>
+          obtain ⟨σ1, ρ⟩ := pr
+          simp only [ha] at h h'
+          by_cases hk : raiseOK K ρ = true
+          · by_cases hk' : raiseOK K' ρ = true
+            · simp only [hk, hk', if_true] at h h'
+              exact ih K K' σ1 rest a b h h'
+            · simp [hk'] at h'
+          · simp [hk] at h
+      | try_ body cs hd ex =>
+        simp only [chk] at h h'
+        cases h0 : chk f (fun _ => true) σ body with
+        | none => simp [h0] at h
+        | some σb =>
+          simp only [h0] at h h'
+          generalize (fun τ => (catchesAll cs || K τ) &&
+            (match chk f K τ hd with
+             | some τ' => exitOK K ex σb τ'
+             | none => false)) = Kb at h
+          generalize (fun τ => (catchesAll cs || K' τ) &&
+            (match chk f K' τ hd with
+             | some τ' => exitOK K' ex σb τ'
+             | none => false)) = Kb' at h'
+          cases hb : chk f Kb σ body with
+          | none => simp [hb] at h
+          | some σ1 =>
+            cases hb' : chk f Kb' σ body with
+            | none => simp [hb'] at h'
+            | some σ1' =>
+              simp only [hb] at h
+              simp only [hb'] at h'
+              have e := ih Kb Kb' σ body σ1 σ1' hb hb'
+              subst e
+              exact ih K K' σ1 rest a b h h'
+
 /-- **chk_sound.** If the abstract run accepts, then under *every* fault plan (any number of faults) the real run
     either completes normally in the predicted core state, or raises in a state the acceptance predicate admits;
     it never runs out of fuel. -/
@@ -1336,14 +1401,19 @@ theorem chk_sound (P : Plan) : ∀ (f : Nat) (K : Core → Bool) (σ : Core) (p 
       | try_ body cs hd ex =>
         simp only [chk] at h
         simp only [exec]
+        cases h0 : chk f (fun _ => true) σ body with
+        | none => simp [h0] at h
+        | some σb =>
+        simp only [h0] at h
         generalize hKb : (fun τ => (catchesAll cs || K τ) &&
           (match chk f K τ hd with
-           | some τ' => ex != .swallow && K τ'
+           | some τ' => exitOK K ex σb τ'
            | none => false)) = Kb at h
         cases hb : chk f Kb σ body with
         | none => simp [hb] at h
         | some σ1 =>
           simp only [hb] at h
+          have hσ : σ1 = σb := chk_indep f Kb (fun _ => true) σ body σ1 σb hb h0
           rcases ih Kb σ body σ1 hb s hs with ⟨hok, hc⟩ | ⟨κ, hr, hkb⟩
           · have e : handleRes cs ex (exec P f body s) (exec P f hd) = exec P f body s := by
               unfold handleRes; rw [hok]
@@ -1353,23 +1423,29 @@ theorem chk_sound (P : Plan) : ∀ (f : Nat) (K : Core → Bool) (σ : Core) (p 
             simp only [Bool.and_eq_true, Bool.or_eq_true] at hkb
             obtain ⟨hk1, hk2⟩ := hkb
             by_cases hcon : cs.contains κ = true
-            · -- caught: the handler runs (it may itself fail), then the exit raises
+            · -- caught: the handler runs (it may itself fail), then the exit raises or execution goes on
               cases hh : chk f K (core (exec P f body s).1) hd with
               | none => simp [hh] at hk2
               | some τ' =>
-                simp only [hh, Bool.and_eq_true, bne_iff_ne, ne_eq] at hk2
-                obtain ⟨hex, hkt⟩ := hk2
+                simp only [hh] at hk2
                 rcases ih K _ hd τ' hh (exec P f body s).1 rfl with ⟨hok2, hc2⟩ | ⟨κ2, hr2, hk2'⟩
                 · have e : handleRes cs ex (exec P f body s) (exec P f hd) =
                       ((exec P f hd (exec P f body s).1).1, ex.apply κ) := by
                     unfold handleRes; simp only [hr, hcon, if_true]; rw [hok2]
-                  have hne : ex.apply κ ≠ .ok := by
-                    cases ex <;> simp [Exit.apply] at hex ⊢
-                  rw [e, andThen_not_ok hne]
+                  rw [e]
                   cases ex with
-                  | reraise => exact Or.inr ⟨κ, rfl, by rw [hc2]; exact hkt⟩
-                  | raiseK κ' => exact Or.inr ⟨κ', rfl, by rw [hc2]; exact hkt⟩
-                  | swallow => exact absurd rfl hex
+                  | reraise =>
+                    rw [andThen_not_ok (by simp [Exit.apply])]
+                    exact Or.inr ⟨κ, rfl, by rw [hc2]; simpa [exitOK] using hk2⟩
+                  | raiseK κ' =>
+                    rw [andThen_not_ok (by simp [Exit.apply])]
+                    exact Or.inr ⟨κ', rfl, by rw [hc2]; simpa [exitOK] using hk2⟩
+                  | swallow =>
+                    have hτ : τ' = σb := by simpa [exitOK] using hk2
+                    rw [andThen_ok (by simp [Exit.apply])]
+                    apply ih K σ1 rest σ' h
+                    simp only
+                    rw [hc2, hτ, hσ]
                 · have e : handleRes cs ex (exec P f body s) (exec P f hd) = exec P f hd (exec P f body s).1 := by
                     unfold handleRes; simp only [hr, hcon, if_true]; rw [hr2]
                   rw [e, andThen_not_ok (by rw [hr2]; simp)]
@@ -1441,6 +1517,17 @@ example : safeOpen 1 [.atom 1 .pure, .atom 2 (.tOpen 0), .atom 3 .io, .atom 4 .s
 example : safeOpen 1 [.atom 1 .pure, .atom 2 (.tOpen 0), .try_ [.atom 4 .io] [.os] [.atom 5 (.tClose 0)] .reraise,
     .atom 7 .superOpen] = false := by decide
 example : safeOpen 1 [.atom 1 .pure, .atom 2 .superOpen, .atom 3 (.tOpen 0)] = false := by decide
+/-- a retry loop around the link opening, unrolled to three attempts (each its own fault point; the failure handlers
+    fall through to the next attempt): accepted; "fails twice, then opens" is a two-fault plan and ends fully open -/
+example :
+    let p : Prog := [.atom 1 .checkClosed,
+      .try_ [.atom 4 (.tOpen 0)] allKinds
+        [.atom 9 .pure, .try_ [.atom 4 (.tOpen 0)] allKinds [.atom 9 .pure, .atom 4 (.tOpen 0)] .swallow] .swallow,
+      .atom 10 .superOpen]
+    let P : Plan := fun c => if c < 2 then some .timeout else none
+    safeOpen 1 p = true ∧ (exec P 50 p init).2 = .ok ∧ fullyOpenB 1 (exec P 50 p init).1 = true ∧
+      (exec (fun _ => some .os) 50 p init).2 = .raised .os := by decide
+
 /-- a two-fault plan on the K10CR1 shape: the I/O fails, then the cleanup `close()` fails too — still consistent -/
 example :
     let p : Prog := [.atom 2 .checkClosed, .atom 3 (.tOpen 0),
@@ -1505,9 +1592,13 @@ theorem chk_sound_nofault : ∀ (f : Nat) (K : Core → Bool) (σ : Core) (p : P
       | try_ body cs hd ex =>
         simp only [chk] at h
         simp only [exec]
+        cases h0 : chk f (fun _ => true) σ body with
+        | none => simp [h0] at h
+        | some σb =>
+        simp only [h0] at h
         generalize (fun τ => (catchesAll cs || K τ) &&
           (match chk f K τ hd with
-           | some τ' => ex != .swallow && K τ'
+           | some τ' => exitOK K ex σb τ'
            | none => false)) = Kb at h
         cases hb : chk f Kb σ body with
         | none => simp [hb] at h
